@@ -16,13 +16,97 @@ from cspuz.array import BoolArray1D, BoolArray2D
 from ..monitors import msolve
 
 
+WARM = {"on": True, "used": 0, "raised": 0}
+
+
+def use_everywhere(g):
+    """A caller that posts constraints on a graph it is still building: every public constraint that takes a Graph is posted once
+    on a scratch solver (nothing is solved).  Whatever the Graph object remembers from this must not leak into later use."""
+    import cspuz
+    from cspuz import graph as GR
+
+    n, m = g.num_vertices, len(g.edges)
+    for f in (
+        lambda s: GR.active_vertices_connected(s, [s.bool_var() for _ in range(n)], g),
+        lambda s: GR.active_vertices_connected(s, [s.bool_var() for _ in range(n)], g, acyclic=True),
+        lambda s: GR.active_vertices_connected(s, [s.bool_var() for _ in range(n)], g, use_graph_primitive=True),
+        lambda s: GR.active_vertices_not_adjacent(s, [s.bool_var() for _ in range(n)], g),
+        lambda s: GR.active_vertices_not_adjacent_and_not_segmenting(s, cspuz.array.BoolArray1D([s.bool_var() for _ in range(n)]), g),
+        lambda s: GR.active_edges_acyclic(s, [s.bool_var() for _ in range(m)], g),
+        lambda s: GR.active_edges_single_cycle(s, [s.bool_var() for _ in range(m)], g, use_graph_primitive=False),
+        lambda s: GR.active_edges_single_cycle(s, [s.bool_var() for _ in range(m)], g, use_graph_primitive=True),
+        lambda s: GR.active_edges_single_path(s, [s.bool_var() for _ in range(m)], g, use_graph_primitive=True),
+        lambda s: GR.division_connected(s, [s.int_var(0, 1) for _ in range(n)], 2, g),
+        lambda s: GR.division_connected_variable_groups(s, graph=g, group_size=None),
+        lambda s: GR.division_connected_variable_groups_with_borders(s, group_size=None, is_border=[s.bool_var() for _ in range(m)], graph=g),
+        lambda s: g.line_graph(),
+        lambda s: (len(g), list(g), [g[i] for i in range(m)]),
+    ):
+        try:
+            f(cspuz.Solver())
+            WARM["used"] += 1
+        except Exception:
+            WARM["raised"] += 1
+
+
 def mk_graph(n, edges):
+    """The Graph a caller would build - for half of the graphs (chosen from the graph itself, so a replay repeats it) the caller
+    already USES the graph after a prefix of the add_edge calls and then goes on adding edges (history workload)."""
+    import random
+
     from cspuz.graph import Graph
 
     g = Graph(n)
-    for u, v in edges:
+    edges = list(edges)
+    r = random.Random(repr((n, edges)))
+    cut = r.randrange(len(edges) + 1) if (WARM["on"] and edges and r.random() < 0.5) else None
+    for k, (u, v) in enumerate(edges):
+        if k == cut:
+            use_everywhere(g)
         g.add_edge(u, v)
+    if cut is not None and cut == len(edges):
+        use_everywhere(g)
     return g
+
+
+def grown_graphs(rng, count, nmax=6, parallel=True):
+    """History workload: ONE Graph object per run, handed out again after every add_edge (a caller that builds a graph, posts a
+    constraint, extends the graph and posts again).  Yields (graph, n, edges_so_far, new_edge)."""
+    from cspuz.graph import Graph
+
+    for _ in range(count):
+        n = rng.randint(2, nmax)
+        g = Graph(n)
+        edges = []
+        yield g, n, list(edges), None  # used before any edge exists
+        for _ in range(rng.randint(1, n + 2)):
+            u, v = rng.sample(range(n), 2)
+            if not parallel and ((u, v) in edges or (v, u) in edges):
+                continue
+            g.add_edge(u, v)
+            edges.append((u, v))
+            yield g, n, list(edges), (u, v)
+
+
+def patterns_around(rng, n, edges, new_edge, k):
+    """k vertex patterns: ones the new edge matters for (both ends active, grown along existing edges), plus random ones"""
+    adj = [[] for _ in range(n)]
+    for u, v in edges:
+        adj[u].append(v)
+        adj[v].append(u)
+    out = []
+    for i in range(k):
+        if new_edge is not None and i % 2 == 0:
+            cur = set(new_edge)
+            for _ in range(rng.randint(0, n)):
+                nb = [w for u in cur for w in adj[u] if w not in cur]
+                if not nb:
+                    break
+                cur.add(rng.choice(nb))
+            out.append(tuple(1 if v in cur else 0 for v in range(n)))
+        else:
+            out.append(tuple(rng.randint(0, 1) for _ in range(n)))
+    return out
 
 
 def scramble(rng, edges):
